@@ -230,7 +230,8 @@ func (svc *InsertServiceV2) swapBuffers() (*requestPortion, error) {
 	svc.mtx.Lock()
 	defer svc.mtx.Unlock()
 	svc.insertCtx, svc.insertCancel = context.WithTimeout(context.Background(), svc.pushInterval)
-	if svc.size == 0 {
+	// flush whenever requests are waiting, whatever size they were accounted with
+	if len(svc.results) == 0 {
 		return nil, nil
 	}
 	columns := svc.columns
